@@ -6,7 +6,7 @@
    snapshot once under RLock, then three lookups through the request's own snapshot, then the balancer-table lookup)
    take their atomic steps in ANY order: a schedule is an arbitrary list of thread indices. *)
 From Coq Require Import List ZArith Bool.
-From Bfe Require Import lib.Val model.Snapshot proofs.SnapshotProofs run.RunC15.
+From Bfe Require Import lib.Val model.Snapshot model.SnapshotTls model.SnapshotTlsWire proofs.SnapshotProofs proofs.SnapshotTlsProofs run.RunC15.
 Import ListNotations.
 Open Scope Z_scope.
 
@@ -88,6 +88,47 @@ Theorem C15_overlapping_reloads_stale_gslb_basic :
 Proof. exact overlapping_reloads_stale. Qed.
 Print Assumptions C15_overlapping_reloads_stale_gslb_basic.
 
+(* ---- TLS tables (model/SnapshotTls.v: tlsConfLoad, MultiCertMap.Update / Get, TLSServerRuleMap.Update / Get) ---- *)
+
+(* For EVERY interleaving of any number of TLS reloads (complete TLSConfReload, bare MultiCertMap.Update, failing ones of
+   every kind, stopped at any stage) and handshakes: the vip -> certificate table, the SNI -> certificate table and the
+   default certificate always stem from ONE configuration version, and every handshake selected its certificate from
+   tables of one version (never a vip table of one configuration mixed with the SNI table of another). *)
+Theorem C15_tls_tables_together :
+  forall c r ts sched, Forall tl_fresh ts ->
+    let st := tl_exec (mkTSt (tl_init c r) ts) sched in
+    (mc_vip (tsh st) = mc_name (tsh st) /\ mc_name (tsh st) = mc_def (tsh st)) /\
+    forall i h, nth_error (tthreads st) i = Some (TTShake h) -> th_vip h = th_name h /\ th_name h = th_def h.
+Proof. exact tls_tables_together. Qed.
+Print Assumptions C15_tls_tables_together.
+
+(* Failed reload = identity on the observable state: in EVERY interleaving of any number of FAILING TLS reloads (loading
+   or CheckTlsConf fails; a rule names an unknown certificate; the default certificate is missing - detected only after
+   the new SNI table has been built) and handshakes, the shared tables and locks never change, and every handshake is
+   answered from the configuration (c, r) that was installed before. *)
+Theorem C15_tls_failed_reload_identity :
+  forall c r ts sched, Forall fresh_failing_or_shake ts ->
+    let st := tl_exec (mkTSt (tl_init c r) ts) sched in
+    tsh st = tl_init c r /\
+    forall i h, nth_error (tthreads st) i = Some (TTShake h) ->
+      ((1 <= th_pc h)%nat -> th_vip h = c /\ th_name h = c /\ th_def h = c) /\ ((2 <= th_pc h)%nat -> th_rule h = r).
+Proof. exact tls_failed_reload_identity. Qed.
+Print Assumptions C15_tls_failed_reload_identity.
+
+(* Successful reload = all lookups new: a complete TLSConfReload of version t that runs alone from a quiet state leaves
+   all three certificate tables and the rule table at t; a handshake that follows is answered from t only. *)
+Theorem C15_tls_successful_reload_all_new : forall ts c r t,
+  tl_run_new (mkTSt (TQ c r) ts) (new_tl_reload t 0 false) = mkTSt (TQ t t) (ts ++ [TTReload (mkTR t 0 false 11)]).
+Proof. exact run_good. Qed.
+Print Assumptions C15_tls_successful_reload_all_new.
+
+(* The model satisfies the TLS part of prop_C15 on every burst-free TLS input [100 [...]]. *)
+Theorem C15_tls_prop_of_model_partial : forall i ops,
+  decode_tls i = Some ops -> forallb (fun o => negb (is_tburst o)) ops = true ->
+  prop_C15 i (run_C15 i) = true.
+Proof. exact prop_C15_tls_of_model_partial. Qed.
+Print Assumptions C15_tls_prop_of_model_partial.
+
 (* Non-vacuity: a request snapshots version 1, a reload to version 2 completes while the request is between its first
    and second lookup, the request still sees [1;1;1] although version 2 is installed at the end. *)
 Example C15_example :
@@ -118,3 +159,22 @@ Example C15_prop_example :
   run_C15 i = VL [VL [VZ 1; VZ 0; VZ 0; VZ 0; VZ 0; VZ 0; VZ 0]; VL [VZ 0; VZ 2]; VL [VZ 1; VZ 1; VZ 0; VZ 0; VZ 0; VZ 0; VZ 0];
                   VL [VZ 1; VZ 2]; VL [VZ 0]; VL [VZ 1; VZ 1; VZ 1; VZ 1; VZ 1; VZ 2; VZ 200]].
 Proof. exact prop_example. Qed.
+
+(* Non-vacuity, TLS: a rejected update (default certificate missing) and a handshake, then a complete reload to version 3
+   and a handshake with vip: the first handshake is answered from version 1, the second from version 3. *)
+Example C15_tls_example :
+  let st := tl_exec (mkTSt (tl_init 1 1) [new_tl_reload 2 3 true; new_tl_shake 0; new_tl_reload 3 0 false; new_tl_shake 1])
+                    [0;0;0;1;1; 2;2;2;2;2;2;2;2;2;2;2; 3;3]%nat in
+  Forall tl_fresh [new_tl_reload 2 3 true; new_tl_shake 0; new_tl_reload 3 0 false; new_tl_shake 1] /\
+  nth_error (tthreads st) 1 = Some (TTShake (mkTH 2 0 1 1 1 1)) /\
+  nth_error (tthreads st) 3 = Some (TTShake (mkTH 2 1 3 3 3 3)) /\ tsh st = tl_init 3 3.
+Proof. exact tls_example. Qed.
+
+(* The seeded defect in the model (SNI table updated in place before the default-certificate check): the same rejected
+   update now changes what the handshake gets (certificate s2 instead of s1) and leaves tables of two versions. *)
+Example C15_tls_in_place_update_breaks :
+  let st := fold_left tl_step_bad [0;0;0;1;1]%nat
+              (mkTSt (tl_init 1 1) [new_tl_reload 2 3 true; new_tl_shake 0]) in
+  mc_vip (tsh st) = 1 /\ mc_name (tsh st) = 2 /\
+  nth_error (tthreads st) 1 = Some (TTShake (mkTH 2 0 1 2 1 1)) /\ choose_cert 0 1 2 1 = (2, 2).
+Proof. exact in_place_name_update_breaks. Qed.
